@@ -4,6 +4,8 @@ mod monitors;
 mod props;
 mod refmodel;
 mod selftest;
+mod sweeps;
+mod builders;
 
 use common::Tier;
 
